@@ -881,6 +881,22 @@ func (g *coreGen) program() Node {
 	stmts = append(stmts, map[string]any(cn("expr", "e", map[string]any(cn("asg", "n", "r0", "op", "=", "e", map[string]any(cn("arr", "items", []any{})))))))
 	stmts = append(stmts, map[string]any(cn("expr", "e", map[string]any(cn("asg", "n", "r1", "op", "=", "e", map[string]any(cn("arr", "items", []any{map[string]any(g.num(3)), map[string]any(cn("str", "v", "bc")), map[string]any(g.num(5))})))))))
 	stmts = append(stmts, map[string]any(cn("expr", "e", map[string]any(cn("asg", "n", "o0", "op", "=", "e", map[string]any(cn("obj", "keys", []any{"b", "a"}, "vals", []any{map[string]any(g.num(2)), map[string]any(cn("str", "v", "Zq"))})))))))
+	if g.r.Intn(4) == 0 {
+		// every kind of literal as the whole condition of while / if / for
+		lits := []Node{cn("num", "v", 0), cn("num", "v", 2), cn("str", "v", ""), cn("str", "v", "a"), cn("null"), cn("bool", "v", false), cn("bool", "v", true),
+			cn("bin", "op", "-", "l", map[string]any(cn("num", "v", 2)), "r", map[string]any(cn("num", "v", 2))), cn("un", "op", "!", "e", map[string]any(cn("num", "v", 0)))}
+		for k, l := range lits {
+			tag := map[string]any(cn("num", "v", k))
+			brk := func(what string) Node {
+				return cn("block", "b", []any{map[string]any(cn("print", "args", []any{map[string]any(cn("str", "v", what)), tag})), map[string]any(cn("break"))})
+			}
+			stmts = append(stmts, map[string]any(cn("while", "c", map[string]any(l), "b", map[string]any(brk("w")))))
+			stmts = append(stmts, map[string]any(cn("if", "c", map[string]any(l), "th", map[string]any(cn("block", "b", []any{map[string]any(cn("print", "args", []any{map[string]any(cn("str", "v", "t")), tag}))})),
+				"el", map[string]any(cn("block", "b", []any{map[string]any(cn("print", "args", []any{map[string]any(cn("str", "v", "e")), tag}))})))))
+			stmts = append(stmts, map[string]any(cn("for", "init", map[string]any(cn("asg", "n", "fz", "op", "=", "e", map[string]any(cn("num", "v", 0)))), "c", map[string]any(l),
+				"post", map[string]any(cn("inc", "n", "fz", "op", "++", "post", true)), "b", map[string]any(brk("f")))))
+		}
+	}
 	// oa is a second reference to the object o0 (objects are shared; arrays are not aliased here: alias-length)
 	stmts = append(stmts, map[string]any(cn("expr", "e", map[string]any(cn("asg", "n", "oa", "op", "=", "e", map[string]any(cn("var", "n", "o0")))))))
 	n := 1 + g.r.Intn(4)
